@@ -279,6 +279,7 @@ def P(pid):
             ('RF-T size special cases of the CL03 code are the tabled ones', rf_frame.rule_size_thresholds_cl03, 3),
             ('RF-P no range 0..=n over a count', CL.rule_no_inclusive_count_ranges, 2),
             ('RF-B literal base positions are position 0', CL.rule_constant_base_positions, 2),
+            ('RF-B pk.b is used as a base, pk.c as a factor', CL.rule_key_member_roles, 2),
             ('RF-D a signature is computed from the key, the bases and every attribute', lambda c: rf_frame.rule_result_binding(c, table={k: v for k, v in rf_frame.RESULT_BINDING_CL03.items() if '::sign' in k and 'blind' not in k}), 8),
             ('RF-N CL03 signature octets: reader offsets = writer offsets', rf_codec.rule_cl03_signature_codec, 1),
             ('RF-N serde writer/reader agreement (CL03 keys, signatures, bases, messages)', lambda c: rf_codec.rule_serde_symmetry(c, scope=('cl03::signature', 'cl03::keys', 'cl03::bases', 'cl03::blind', 'utils::message::cl03_message'), min_types=5), 15),
@@ -303,6 +304,7 @@ def P(pid):
             ('RF-T size special cases of the CL03 code are the tabled ones', rf_frame.rule_size_thresholds_cl03, 3),
             ('RF-P no range 0..=n over a count', CL.rule_no_inclusive_count_ranges, 2),
             ('RF-B literal base positions are position 0', CL.rule_constant_base_positions, 2),
+            ('RF-B pk.b is used as a base, pk.c as a factor', CL.rule_key_member_roles, 2),
             ('RF-Q every issued signature (blind_sign, update_signature) gets an exponent of its own from the search loop', CL.rule_e_loop_exit, 4),
             ('RF-D the blind signature is computed from the commitment, the key, the bases and the revealed attributes', lambda c: rf_frame.rule_result_binding(c, table={k: v for k, v in rf_frame.RESULT_BINDING_CL03.items() if 'blind_sign' in k}), 6),
             ('RF-C Fiat-Shamir ingredients of the issuance sigma protocols', lambda c: rf_hash.rule_hash_binding(c, rf_hash.CL03_FS_TABLE, CL03_FS_SCOPE), 38),
@@ -320,6 +322,8 @@ def P(pid):
             ('RF-S the tests acceptance rests on hold the way round and with the strictness they had', lambda c: rf_senses.rule_acceptance_senses(c, group='cl03', only=['verify_proof']), 1),
             ('RF-Q range proofs are made and checked for the interval of the quantity they are about', CL.rule_range_statement_intervals, 2),
             ('RF-D no verifier says true from inside a loop over the parts of a proof', CL.rule_no_early_accept, 2),
+            ('RF-O provers and verifiers of the sigma protocols raise the same bases in the same order, one response per mask', CL.rule_prover_verifier_bases, 7),
+            ('RF-B parameters of the range-proof functions are handed on under their own name', lambda c: rf_consts.rule_argument_roles(c, scope=('cl03::range_proof::',), callee_scope=('cl03::range_proof::',), roles=('g', 'h', 'n', 't', 'l', 's', 's1', 's2', 'T', 'a', 'b'), min_sites=20, tag=':range-proof'), 20),
             ('RF-S guards of the issuing and committing functions keep their sense', lambda c: rf_senses.rule_acceptance_senses(c, scope=('cl03::blind::', 'cl03::commitment::'), floor=2), 1),
         ]
         meta['explanation'] = ('Decided (necessary): every use of the secret key in blind_sign is dominated by verify_proof == true on the very C, C_trusted, pk, bases, key and positions '
@@ -348,8 +352,11 @@ def P(pid):
             ('RF-S the tests acceptance rests on hold the way round and with the strictness they had', lambda c: rf_senses.rule_acceptance_senses(c, group='cl03', only=['proof_verify']), 1),
             ('RF-Q range proofs are made and checked for the interval of the quantity they are about', CL.rule_range_statement_intervals, 2),
             ('RF-D no verifier says true from inside a loop over the parts of a proof', CL.rule_no_early_accept, 2),
+            ('RF-O provers and verifiers of the sigma protocols raise the same bases in the same order, one response per mask', CL.rule_prover_verifier_bases, 7),
+            ('RF-B parameters of the range-proof functions are handed on under their own name', lambda c: rf_consts.rule_argument_roles(c, scope=('cl03::range_proof::',), callee_scope=('cl03::range_proof::',), roles=('g', 'h', 'n', 't', 'l', 's', 's1', 's2', 'T', 'a', 'b'), min_sites=20, tag=':range-proof'), 20),
             ('RF-P no range 0..=n over a count', CL.rule_no_inclusive_count_ranges, 2),
             ('RF-B literal base positions are position 0', CL.rule_constant_base_positions, 2),
+            ('RF-B pk.b is used as a base, pk.c as a factor', CL.rule_key_member_roles, 2),
         ]
         meta['explanation'] = ('Decided (necessary): the recomputed challenge equality gates acceptance and depends on all nine responses, the four commitment values, both keys, the bases, the revealed '
                                'attributes and the attribute count; Ce is equated with the range proof on e and each per-attribute commitment with its range proof; every serialised leaf of the proof '
@@ -372,6 +379,8 @@ def P(pid):
             ('RF-W acceptance conditions test the combinations of inputs tested before', lambda c: rf_gatesets.rule_gate_sets(c, group='cl03', only=['Boudot2000RangeProof::verify']), 2),
             ('RF-S the tests acceptance rests on hold the way round and with the strictness they had', lambda c: rf_senses.rule_acceptance_senses(c, group='cl03', only=['Boudot2000RangeProof::verify']), 1),
             ('RF-D no verifier says true from inside a loop over the parts of a proof', CL.rule_no_early_accept, 2),
+            ('RF-O provers and verifiers of the sigma protocols raise the same bases in the same order, one response per mask', CL.rule_prover_verifier_bases, 7),
+            ('RF-B parameters of the range-proof functions are handed on under their own name', lambda c: rf_consts.rule_argument_roles(c, scope=('cl03::range_proof::',), callee_scope=('cl03::range_proof::',), roles=('g', 'h', 'n', 't', 'l', 's', 's1', 's2', 'T', 'a', 'b'), min_sites=20, tag=':range-proof'), 20),
             ('RF-S guards of the range prover keep their sense', lambda c: rf_senses.rule_acceptance_senses(c, scope=('cl03::range_proof::',)), 1),
         ]
         meta['explanation'] = ('Decided (necessary): acceptance of a Boudot range proof is gated by E\' == E^(2^T), the two decomposition equalities, both proofs of square and both larger-interval '
